@@ -146,6 +146,11 @@ def main():
             a, b = rng.choice(pool), rng.choice(pool)
             o = rng.choice(ops + cmps + ['neg', 'not', 'truth', 'and', 'cond'] + ['!' + c for c in cmps] + ['if!' + c for c in cmps[2:]])
             ocases.append((k, t, o, a, b)); k += 1
+        # ++ / -- on floating objects: the postfix forms yield the OLD value also where old + 1 - 1 != old
+        for a in ['1e-10' + sfx, '1e30' + sfx, '16777216.0' + sfx, '-0.0' + sfx, '0.5' + sfx, '9007199254740992.0' + sfx, '(%s)(1.0 / zero)' % t]:
+            for o in ('a++', 'a--', '++a', '--a'):
+                ocases.append((k, t, o, a, 'value')); k += 1
+                ocases.append((k, t, o, a, 'object')); k += 1
         # the negation of every comparison with an unordered operand (C11 7.12.14: a relational operator on NaN is 0, so its negation is 1)
         for c_ in cmps:
             for (a, b) in (('(%s)(zero / zero)' % t, '1.0' + sfx), ('1.0' + sfx, '(%s)(zero / zero)' % t)):
@@ -158,6 +163,7 @@ def main():
         elif o in cmps: text += pre + 'int r = a %s b; dump(%d, &r, 4); }\n' % (o, i)
         elif o.startswith('if!'): text += pre + 'int r = 0; if (!(a %s b)) r = 1; while (!(b %s a)) { r += 2; break; } r += 4 * (!(a %s b) ? 1 : 0); dump(%d, &r, 4); }\n' % (o[3:], o[3:], o[3:], i)
         elif o.startswith('!'): text += pre + 'int r = !(a %s b); dump(%d, &r, 4); }\n' % (o[1:], i)
+        elif o in ('a++', 'a--', '++a', '--a'): text += '  { volatile %s a = %s; %s r = %s; %s q = a; dump(%d, &%s, %d); }\n' % (t, a, t, o, t, i, 'r' if b == 'value' else 'q', size_of(t))
         elif o == 'neg': text += pre + '%s r = -a; dump(%d, &r, %d); }\n' % (t, i, size_of(t))
         elif o == 'not': text += pre + 'int r = !a; dump(%d, &r, 4); }\n' % i
         elif o == 'truth': text += pre + 'int r = 0; if (a) r = 1; while (b) { r += 2; break; } dump(%d, &r, 4); }\n' % i
